@@ -2,6 +2,10 @@
 // One case = one call; the observation is the outcome class and the result as byte lists.
 #include <common/vh.hpp>
 
+#include <iomanip>
+#include <memory>
+#include <sstream>
+
 #include <nitro/except/raise.hpp>
 #include <nitro/format/format.hpp>
 #include <nitro/lang/string.hpp>
@@ -102,10 +106,14 @@ static J run_format(const J& c)
     });
 }
 
+static J run_raise_items(const J& items);
 static J run_raise(const J& c)
 {
     // message of a raised exception = concatenation of the stream representations
-    auto items = c["items"]; // each {"t":"s","v":bytes} or {"t":"i","v":int}
+    auto items = c["items"]; // each {"t":"s","v":bytes} or {"t":"i","v":int}; "h" items go through the run-time item type
+    for (std::size_t k = 0; k < items.size(); k++)
+        if (items[k]["t"].str() == "h")
+            return run_raise_items(items);
     J o = J::obj();
     try
     {
@@ -171,9 +179,129 @@ static J run_raise(const J& c)
     return o;
 }
 
+// A streamable item decided at run time: text, integer, or a user type that prints its number in hexadecimal and - as
+// such types commonly do - leaves the stream in that mode.
+struct Item
+{
+    char t;
+    std::string s;
+    long long i;
+};
+static std::ostream& operator<<(std::ostream& os, const Item& it)
+{
+    if (it.t == 's')
+        return os << it.s;
+    if (it.t == 'h')
+        return os << std::hex << it.i;
+    return os << it.i;
+}
+static Item item_of(const J& j)
+{
+    Item it{ j["t"].str()[0], "", 0 };
+    if (it.t == 's')
+        it.s = j["v"].as_bytes();
+    else
+        it.i = j["v"].num();
+    return it;
+}
+static J run_raise_items(const J& items)
+{
+    J o = J::obj();
+    std::vector<Item> v;
+    for (std::size_t k = 0; k < items.size(); k++)
+        v.push_back(item_of(items[k]));
+    try
+    {
+        switch (v.size())
+        {
+        case 1:
+            nitro::raise(v[0]);
+            break;
+        case 2:
+            nitro::raise(v[0], v[1]);
+            break;
+        case 3:
+            nitro::raise(v[0], v[1], v[2]);
+            break;
+        case 4:
+            nitro::raise(v[0], v[1], v[2], v[3]);
+            break;
+        default:
+            o.set("outcome", "unsupported");
+            return o;
+        }
+        o.set("outcome", "ok");
+    }
+    catch (const nitro::except::exception& e)
+    {
+        o.set("outcome", "raise");
+        o.set("cls", "nitro_exception");
+        o.set("out", J::bytes(e.what()));
+    }
+    catch (const std::exception& e)
+    {
+        o.set("outcome", "raise");
+        o.set("cls", "std_exception");
+        o.set("out", J::bytes(e.what()));
+    }
+    return o;
+}
+
+// A history of operations on one thread: {"ops":[{"op":"format","fmt":..,"args":[..],"cont":"new|again|mod|args"} |
+// {"op":"raise","items":[..]}]}.  "cont" other than "new" continues the formatter object of the previous operation.
+static J run_fhist(const J& c)
+{
+    J out = J::arr();
+    std::unique_ptr<nitro::detail::formatter<char>> f;
+    const J& ops = c["ops"];
+    for (std::size_t k = 0; k < ops.size(); k++)
+    {
+        const J& x = ops[k];
+        J r;
+        if (x["op"].str() == "raise")
+        {
+            r = run_raise_items(x["items"]);
+        }
+        else
+        {
+            auto args = x["args"].as_bytes_list();
+            const std::string cont = x["cont"].str();
+            r = guarded([&](J& o) {
+                if (cont == "new" || !f)
+                {
+                    f = std::make_unique<nitro::detail::formatter<char>>(nitro::format(x["fmt"].as_bytes()));
+                    for (std::size_t i = 0; i < args.size(); i++)
+                    {
+                        if (i % 2 == 0)
+                            (*f) % args[i];
+                        else
+                            f->args(args[i]);
+                    }
+                }
+                else if (cont == "mod")
+                    (*f) % args.back();
+                else if (cont == "args")
+                    f->args(args.back());
+                std::string text = f->str();
+                std::string conv = *f;
+                std::stringstream ss;
+                ss << *f;
+                o.set("out", J::bytes(text));
+                o.set("conv", J::bytes(conv));
+                o.set("stream", J::bytes(ss.str()));
+            });
+        }
+        vh::note_step(r);
+        out.push(r);
+    }
+    return J::obj().set("outcome", "ok").set("ops", out);
+}
+
 static J run(const J& c)
 {
     const std::string op = c["op"].str();
+    if (op == "fhist")
+        return run_fhist(c);
     if (op == "split")
     {
         std::string h = c["a1"].as_bytes(), n = c["a2"].as_bytes();
